@@ -167,7 +167,7 @@ def _foreign_class_name(repo, reg):
 
 
 def run(repo, rep):
-    rep.explanation = ('R-ATTR attribute existence against foreign class universes (C07.a), table-driven state coverage (C07.b), '
+    rep.explanation = ('R-ATTR attribute existence against foreign class universes (C07.a), R-SHAPE semantic call shape of every stdlib printer over all paths (C07.h), table-driven state coverage (C07.b), '
                        'keyword<->attribute agreement (C07.c), constructor identity (C07.d), may-raise inventory (C07.e), '
                        'named-tuple detection and fallback (C07.f).')
     rep.not_decided = 'TypeErrors and other exceptions from foreign code; equality of the evaluated output; arithmetic on values.'
@@ -440,6 +440,8 @@ def run(repo, rep):
         rep.check(len(rr) == 1 and rr[0] in want, 'C07.f', 'classattr:class-dot-member', ca.where, 'Class.member (enum members)',
                   'classattr returns %s: an Enum member must print as <qualified class>.<member name>' % rr, nontrivial=True)
     rep.floor('C07.f', n, 4)
+    from .c07_shape import run_shape
+    rep.floor('C07.h', run_shape(repo, rep), 20)
     rep.analysed['attribute_reads_checked'] = n_reads
 
 
